@@ -130,6 +130,18 @@ func genMemberValue(rng *rand.Rand, kind string) any {
 	return nil
 }
 
+// merged types whose members differ in what they say about unknown members
+var c07AllOf = map[string]any{
+	"AllOfOpenLater": map[string]any{"allOf": []any{map[string]any{"$ref": "#/components/schemas/Leaf"},
+		map[string]any{"type": "object", "properties": map[string]any{"name": map[string]any{"type": "string"}}, "additionalProperties": true}}},
+	"AllOfOpenFirst": map[string]any{"allOf": []any{map[string]any{"type": "object", "properties": map[string]any{"name": map[string]any{"type": "string"}}, "additionalProperties": true},
+		map[string]any{"$ref": "#/components/schemas/Leaf"}}},
+	"AllOfTypedLater": map[string]any{"allOf": []any{map[string]any{"$ref": "#/components/schemas/Leaf"},
+		map[string]any{"type": "object", "properties": map[string]any{"name": map[string]any{"type": "string"}}, "additionalProperties": map[string]any{"type": "integer"}}}},
+	"AllOfPlain": map[string]any{"allOf": []any{map[string]any{"$ref": "#/components/schemas/Leaf"},
+		map[string]any{"type": "object", "properties": map[string]any{"name": map[string]any{"type": "string"}}}}},
+}
+
 func zeroOf(kind string) any {
 	switch kind {
 	case "string":
@@ -217,6 +229,9 @@ func runC07(r *Report, rng *rand.Rand, thorough bool) {
 			for _, s := range schemas[i:min(i+per, len(schemas))] {
 				comps[s.Name] = s.schema()
 			}
+			for n, sc := range c07AllOf {
+				comps[n] = sc
+			}
 			spec, _ := json.Marshal(map[string]any{"openapi": "3.0.3", "info": map[string]any{"title": "m", "version": "1"}, "paths": map[string]any{}, "components": map[string]any{"schemas": comps}})
 			cfg := codegen.Configuration{Generate: codegen.GenerateOptions{Models: true}}
 			cfg.OutputOptions.SkipPrune = true
@@ -290,6 +305,35 @@ func runC07(r *Report, rng *rand.Rand, thorough bool) {
 				id := fmt.Sprintf("%s/%s/%d", pkg, s.Name, k)
 				scenarios = append(scenarios, map[string]any{"id": id, "pkg": pkg, "opts": map[string]any{"short_circuit": -1, "strict_short_circuit": -1}, "round": map[string]any{"type": s.Name, "json": json.RawMessage(b)}})
 				metas[id] = meta{s, inst, nt, vr.roptr}
+			}
+		}
+	}
+	// merged (allOf) types: unknown members must survive exactly when some member allows them
+	for _, vr := range variants {
+		pkg := fmt.Sprintf("c07_p0_%s", vr.tag)
+		if st := lab.Status[pkg]; st == nil || !st.OK {
+			continue
+		}
+		for tn := range c07AllOf {
+			for k := 0; k < 3; k++ {
+				inst := map[string]any{"x": mStrings[rng.Intn(len(mStrings))], "y": rng.Intn(100), "name": mStrings[rng.Intn(len(mStrings))]}
+				addl := "any"
+				switch tn {
+				case "AllOfOpenLater", "AllOfOpenFirst":
+					inst["extra"] = map[string]any{"a": []int{1, 2}}
+					inst["tag"] = "t"
+					inst["n"] = nil
+				case "AllOfTypedLater":
+					inst["extra"] = 7
+					inst["more"] = 8
+					addl = "int"
+				case "AllOfPlain":
+					addl = ""
+				}
+				b, _ := json.Marshal(inst)
+				id := fmt.Sprintf("%s/%s/%d", pkg, tn, k)
+				scenarios = append(scenarios, map[string]any{"id": id, "pkg": pkg, "opts": map[string]any{"short_circuit": -1, "strict_short_circuit": -1}, "round": map[string]any{"type": tn, "json": json.RawMessage(b)}})
+				metas[id] = meta{mSchema{Name: tn, Addl: addl}, inst, true, false} // nt=true: kept out of the plain-struct model tie
 			}
 		}
 	}
@@ -389,5 +433,5 @@ func runC07(r *Report, rng *rand.Rand, thorough bool) {
 	}
 	ccases.WriteTo(r)
 	// ---- number without format is float32 (documented): a value needing more precision is narrowed
-	r.Rule = "object schemas from a grammar (1-5 members: required/optional x nullable x {string, int, int64, double, bool, date, array, map, referenced object}, some readOnly/writeOnly; additionalProperties absent / true / string / integer / array of integers / object with optional members / map of strings, with 0-3 additional members) x {default, nullable-type, disable-required-readonly-as-pointer}, generated and compiled; valid instances from a schema-directed generator (one instance per schema with zero values in every required member, explicit nulls, absent optionals, empty arrays/maps, 64-bit extremes, float64 edge values, escaped and non-ASCII strings, extra members of the additional type) unmarshalled into the generated type and marshalled again; semantic JSON equality modulo the documented exception (oracle) and the model's re-encoded object (Coq); non-trivial = instance with at least two members"
+	r.Rule = "object schemas from a grammar (1-5 members: required/optional x nullable x {string, int, int64, double, bool, date, array, map, referenced object}, some readOnly/writeOnly; additionalProperties absent / true / string / integer / array of integers / object with optional members / map of strings, with 0-3 additional members) x {default, nullable-type, disable-required-readonly-as-pointer}, plus four merged (allOf) types whose members differ in what they allow for unknown members, generated and compiled; valid instances from a schema-directed generator (one instance per schema with zero values in every required member, explicit nulls, absent optionals, empty arrays/maps, 64-bit extremes, float64 edge values, escaped and non-ASCII strings, extra members of the additional type) unmarshalled into the generated type and marshalled again; semantic JSON equality modulo the documented exception (oracle) and the model's re-encoded object (Coq); non-trivial = instance with at least two members"
 }
